@@ -147,22 +147,22 @@ PROPS['C08'] = dict(level='exploration', jobs=table_jobs,
 
 def fungible_jobs(b, prop, tier, seed):
     jobs = []
-    pools = [(1, 80, 3)] if tier == 'quick' else [(1, 80, 3), (seed + 1000, 300, 4)]
+    pools = [(1, 88, 3)] if tier == 'quick' else [(1, 88, 3), (seed + 1000, 300, 4)]
     for ps, cnt, depth in pools:
         bn = b.build_fungible(ps, cnt, depth)
         if not bn:
             return None
-        n = 8 if cnt <= 80 else 16
+        n = 8 if cnt <= 88 else 16
         for i in range(n):
             jobs.append(_job('fungible:%d:%d:%d' % (ps, cnt, depth), bn, ['--prop', prop, '--tier', tier, '--seed', str(seed), '--shard', '%d/%d' % (i, n)], 'fung_%d_%02d' % (ps, i)))
     return jobs
 
 
-SETUP_EXTRA.append(lambda b: b.build_fungible(1, 80, 3))
+SETUP_EXTRA.append(lambda b: b.build_fungible(1, 88, 3))
 
 PROPS['C09'] = dict(level='exploration', jobs=fungible_jobs,
                     rule='Program generator verif/gen_fungible.py: type A from the type grammar (depth <= 3 quick / 4 thorough), B derived by applying at every node at most one '
-                    'documented fungibility rule (expected fungible iff the two reference schemas are wire-compatible) or a near-miss edit (no expectation); 80 pairs quick, +300 '
+                    'documented fungibility rule (expected fungible iff the two reference schemas are wire-compatible) or a near-miss edit (no expectation); 88 pairs quick, +300 '
                     'from VERIF_SEED in thorough. Static checks per pair: reflexive, symmetric, trait true => schemas wire-compatible, documented pairs true, Protocol<A> admits B. '
                     'Dynamic check whenever the trait is true: rapidcheck-generated values of A that fit B are written as A, read as B (must succeed, same value, all bytes consumed) '
                     'and re-encoded as B (same bytes up to MAP order), and the same with A and B swapped. Non-trivial = trait true for A != B and a value with a non-empty container.',
